@@ -115,8 +115,18 @@ def run_case(tape, tier):
         # between its CR and its LF: legal whole, so legal in any split
         b0 = msgs[0]
         k = b0.find(b"\r\n")
-        if k >= 0 and b"\n" not in b0[:k]:
-            n = tape.pick("limit_len", [65536, 65535, 65536])
+        n = tape.pick("limit_len", [65536, 65535, 65536])
+        if kind == "response" and tape.flag("limit_start_line", 1, 2):
+            # the status line itself (its reason phrase padded), ended by whatever ends it, with the read boundary right before the LF
+            kl = b0.find(b"\n")
+            if kl > 0:
+                end = kl - 1 if b0[kl - 1:kl] == b"\r" else kl      # where the line's own bytes end
+                pad = n - end
+                if pad > 0 and b"\r" not in b0[:end]:
+                    msgs[0] = b0[:end] + b"k" * pad + b0[end:]
+                    limit_cut = kl + pad
+                    res.faults["line_at_the_size_limit"] += 1
+        elif k >= 0 and b"\n" not in b0[:k]:
             line = b"X-Limit: " + b"a" * (n - 9)
             msgs[0] = b0[:k + 2] + line + b"\r\n" + b0[k + 2:]
             limit_cut = k + 2 + len(line) + 1
